@@ -2,4 +2,5 @@ CONSTANTS MaxView = 1 ByzBudget = 2 Blocks <- cBlocks Hdr <- cHdr Dev = {}
 INIT Init
 NEXT Next
 INVARIANTS Agreement ExternalValidity NoRejectedCommitted NoEquivocation
+VIEW View
 CHECK_DEADLOCK FALSE
